@@ -3,6 +3,7 @@
 
 #include <stddef.h>
 #include <stdint.h>
+#include <stdbool.h>
 #include <stdlib.h>
 
 #ifdef __TINYC__
@@ -89,8 +90,21 @@ static inline uint32_t ts_verif_atomic_dec(volatile uint32_t *p) {
 
 #define atomic_inc ts_verif_atomic_inc
 #define atomic_dec ts_verif_atomic_dec
+
+// The plain read of a reference count that decides "I am the only owner". Under a
+// scheduler it is preceded by a scheduling point; for race-detector runs it can be
+// made an acquire load, which states the assumption that this test is ordered
+// behind the previous owner's releasing decrement.
+extern bool ts_verif_acquire_ownership_reads;
+static inline uint32_t ts_verif_ownership_read(const volatile uint32_t *p) {
+  TS_VERIF_YIELD(5, p);
+  if (ts_verif_acquire_ownership_reads) return __atomic_load_n(p, __ATOMIC_ACQUIRE);
+  return *p;
+}
+#define TS_OWNERSHIP_READ(p) ts_verif_ownership_read(p)
 #else
 #define TS_VERIF_YIELD(kind, address) ((void)0)
+#define TS_OWNERSHIP_READ(p) (*(p))
 #endif
 
 #endif  // TREE_SITTER_ATOMIC_H_
